@@ -3,7 +3,10 @@
 (* C15 (ONIOM).  Three uses, selected by the INIT/NEXT pair of the cfg:     *)
 (*                                                                         *)
 (* Formal (InitFormal/NextFormal, S).  Atoms 0..NA-1.  A fragment is        *)
-(* [sel, links, low, high]: a selection argument (none = whole system |     *)
+(* [sel, links, low, high]: low / high are LEVELS <<method, options>> (the   *)
+(* options - basis set, frozen orbitals, ... - are part of the argument of  *)
+(* the uninterpreted energy function E(method, options, atoms, caps));      *)
+(* sel is a selection argument (none = whole system |                       *)
 (* count = first n atoms | list of distinct atom indices in any order),    *)
 (* broken links [s, l] (staying inside, leaving outside), method names      *)
 (* ("none" = absent).  Energies are UNINTERPRETED: a token is               *)
@@ -13,11 +16,13 @@
 (* the state machine one fragment at a time:                                *)
 (*     high present:  + <<high, g>> - <<low, g>> (if low present)           *)
 (*     only low    :  + <<low, g>>                                          *)
+(* (token = <<method, options, geometry>>)                                  *)
 (* Checked on every configuration: TelescopeLow (all models with identical  *)
 (* high and low levels => Total = E(low, whole system)), WholeModel (the    *)
 (* model is the whole system => Total = E(high, whole system)), CoefSum     *)
 (* (coefficients sum to 1), AtomBalance (every atom counted once, caps      *)
-(* cancel).                                                                 *)
+(* cancel), OptionsMatter (the same method with DIFFERENT options does not  *)
+(* telescope: the options belong to the token).                             *)
 (*                                                                         *)
 (* Selection (InitSel/NextSel, G).  Every selection argument for NA atoms   *)
 (* with the list of atom indices it denotes (printed, tag "SEL").           *)
@@ -30,6 +35,7 @@ EXTENDS C15Defs
 
 CONSTANTS NA,          \* number of atoms
           Methods,     \* abstract method names
+          Options,     \* abstract option sets (basis, frozen orbitals, ...)
           MaxModels,   \* model fragments per configuration (1 or 2)
           WithLinks,   \* BOOLEAN: models may carry one broken link
           Coords,      \* coordinate values (units 1/8) for the link cases
@@ -50,20 +56,22 @@ AtomSet(sel)  == {Resolve(sel)[i] : i \in 1..Len(Resolve(sel))}
 \* ---- formal energies ---------------------------------------------------------------
 Geom(f)   == [atoms |-> AtomSet(f.sel), caps |-> {f.links[i] : i \in 1..Len(f.links)}]
 WholeGeom == [atoms |-> Atoms, caps |-> {}]
-Tok(m, g) == <<m, g>>
+Levels  == Methods \X Options
+NoLevel == <<None, None>>
+Tok(lv, g) == <<lv[1], lv[2], g>>
 
 Contribution(b, f) ==
-  IF f.high # None
+  IF f.high # NoLevel
   THEN LET b1 == BagAdd(b, Tok(f.high, Geom(f)), 1)
-       IN IF f.low # None THEN BagAdd(b1, Tok(f.low, Geom(f)), -1) ELSE b1
+       IN IF f.low # NoLevel THEN BagAdd(b1, Tok(f.low, Geom(f)), -1) ELSE b1
   ELSE BagAdd(b, Tok(f.low, Geom(f)), 1)
 
 \* ---- configurations ----------------------------------------------------------------------
 LinksFor(sel) == IF ~WithLinks THEN {<<>>}
                  ELSE {<<>>} \cup { <<[s |-> s, l |-> l]>> : s \in AtomSet(sel), l \in Atoms \ AtomSet(sel) }
-SystemFrags == { [sel |-> SelNone, links |-> <<>>, low |-> m, high |-> None] : m \in Methods }
+SystemFrags == { [sel |-> SelNone, links |-> <<>>, low |-> m, high |-> NoLevel] : m \in Levels }
 ModelSels   == SelArgs \ {SelNone}
-ModelFrags  == UNION { { [sel |-> s, links |-> li, low |-> lo, high |-> hi] : li \in LinksFor(s), lo \in Methods, hi \in Methods }
+ModelFrags  == UNION { { [sel |-> s, links |-> li, low |-> lo, high |-> hi] : li \in LinksFor(s), lo \in Levels, hi \in Levels }
                        : s \in ModelSels }
 Configs == { <<s, a>> : s \in SystemFrags, a \in ModelFrags }
            \cup (IF MaxModels >= 2 THEN { <<s, a, b>> : s \in SystemFrags, a \in ModelFrags, b \in ModelFrags } ELSE {})
@@ -84,8 +92,11 @@ TelescopeLow == (Done /\ \A i \in Models : frs[i].high = frs[i].low)
 WholeModel   == (Done /\ Len(frs) = 2 /\ AtomSet(frs[2].sel) = Atoms /\ frs[2].links = <<>> /\ frs[2].low = frs[1].low)
                    => acc = Single(Tok(frs[2].high, WholeGeom))
 CoefSum      == Done => FoldSet(LAMBDA t, a : a + acc[t], 0, DOMAIN acc) = 1
-AtomBalance  == Done => /\ FoldSet(LAMBDA t, a : a + acc[t] * Cardinality(t[2].atoms), 0, DOMAIN acc) = NA
-                        /\ FoldSet(LAMBDA t, a : a + acc[t] * Cardinality(t[2].caps), 0, DOMAIN acc) = 0
+AtomBalance  == Done => /\ FoldSet(LAMBDA t, a : a + acc[t] * Cardinality(t[3].atoms), 0, DOMAIN acc) = NA
+                        /\ FoldSet(LAMBDA t, a : a + acc[t] * Cardinality(t[3].caps), 0, DOMAIN acc) = 0
+\* same method, different options, one model: no cancellation - neither identity may be claimed
+OptionsMatter == (Done /\ Len(frs) = 2 /\ frs[2].high # frs[2].low /\ frs[2].high[1] = frs[2].low[1])
+                   => acc # Single(Tok(frs[1].low, WholeGeom))
 \* partial sums: after the system fragment alone the energy is the low-level energy of the whole system
 SystemFirst  == k = 1 => acc = Single(Tok(frs[1].low, WholeGeom))
 
@@ -114,6 +125,8 @@ CapOnBond == LET c == Cap(gcase.s, gcase.l, gcase.f) IN
 CoordsSmall == {-9, 0, 13}
 CoordsWide  == {-9, 0, 4, 13}
 FactorsAll  == {0, 4, 5, 8, 11, 16}
+Opt1  == {"o"}
+Opt2  == {"o", "p"}
 Meth2 == {"LO", "HI"}
 Meth3 == {"LO", "MID", "HI"}
 NoCoords == {0}
